@@ -112,12 +112,22 @@ def declaration_refusals(ctx, rule):
             continue
         n += 1
         both = set()
+
+        def conjuncts(e):
+            e = strip_refs(e)
+            if isinstance(e, ast.BoolOp) and isinstance(e.op, ast.And):
+                for v in e.values:
+                    yield from conjuncts(v)
+            else:
+                yield e
         for c in cmps:
-            t = strip_refs(c.left)
-            if c.op == 'truth' and isinstance(t, ast.Call) and getattr(t.func, 'id', '') == 'isinstance' and \
-                    unparse(t.args[1].orig if hasattr(t.args[1], 'orig') else t.args[1]) == 'Container' and \
-                    isinstance(strip_refs(t.args[0]), Param):
-                both.add(strip_refs(t.args[0]).name)
+            if c.op != 'truth':
+                continue
+            for t in conjuncts(c.left):     # a named temporary holding the conjunction counts like the tests themselves
+                if isinstance(t, ast.Call) and getattr(t.func, 'id', '') == 'isinstance' and \
+                        unparse(t.args[1].orig if hasattr(t.args[1], 'orig') else t.args[1]) == 'Container' and \
+                        isinstance(strip_refs(t.args[0]), Param):
+                    both.add(strip_refs(t.args[0]).name)
         ok = len(both) >= 2
         ctx.ob(rule, fi, ex.line, 'Recipe.transfer refuses equal names only for two Containers', ok,
                fact=f"refusal on equal names under isinstance(.., Container) of {sorted(both)}",
